@@ -950,7 +950,7 @@ int main(int argc, char **argv)
     N_LOOKUP = vf_g.thorough ? 4 : 3;
     if (vf_g.replay) replay_main();
     int deaths = vf_run_workers(worker);
-    static char bound[1500], rule[600];
+    static char bound[2800], rule[600];
     snprintf(bound, sizeof bound,
              "all valid object- and array-rooted documents with <= %d value tokens over leaves {%s} and containers {object,array}%s, names %s; "
              "%smax_depth = needed and needed+1; per document: fixpoint over ALL protocol-following call sequences (any length) of %d operations",
@@ -971,6 +971,10 @@ int main(int argc, char **argv)
     vf_evidence_spec es;
     memset(&es, 0, sizeof es);
     es.c_states = CT_STATES; es.c_transitions = CT_TRANS; es.c_validated = CT_TRANS;
+    snprintf(bound + strlen(bound), sizeof bound - strlen(bound), "%s",
+             "; later additions: every pair (thorough: and triple) of small sibling subtrees with inner names \"\" and \"a\" and the pairs one level further down, also under lookups; rich "
+             "towers (an object with an array field and a scalar at every level of 2..254 nested arrays); C11: reset in the histories and an in-place to_writer into a writer placed "
+             "inside the parser's own buffer at every extraction");
     es.bound = bound; es.rule = rule;
     es.assumptions = assumptions; es.nassumptions = 3;
     if (P_C06) { es.must_be_nonzero = must06; es.n_must = 7; }
